@@ -18,6 +18,7 @@ package props
 import (
 	"fmt"
 	"math/rand/v2"
+	"strings"
 
 	"verif/harness/ref"
 	"verif/harness/rt"
@@ -446,6 +447,59 @@ func runC03(r *rt.Runner) {
 				}
 			}
 		}
+	}
+
+	// several programs, one after the other, on ONE interpreter: what an earlier
+	// call left behind (a loop left by stop or by an error, open dictionaries,
+	// definitions) must not change how control flow works in a later call
+	leavers := []string{
+		"0 1 5 { dup 3 eq { stop } if } for",
+		"3 { 7 stop 8 } repeat",
+		"{ 1 stop } loop",
+		"[ 1 2 3 ] { stop } forall",
+		"<< /a 1 /b 2 >> { stop } forall",
+		"0 1 5 { 1 (a) add } for",
+		"{ 1 (a) add } loop",
+		"2 { nosuchname } repeat",
+		"[ 1 2 ] { pop nosuchname } forall",
+		"/q { 1 (a) add } def 3 { q } repeat",
+		"0 1 2 { 0 1 2 { stop } for } for",
+		"{ { stop } exec } loop",
+		"true { 4 { stop } repeat } if",
+		"1 2 add",
+		"/w { exit } def",
+	}
+	strays := []string{"7 exit 8", "{ exit } exec 5", "true { exit } if 5", "/w2 { 1 exit 2 } def w2 3", "1 2 add exit", "0 1 3 { exit } for exit 9",
+		"0 1 2 { pop } for 7", "2 { 5 } repeat", "[ 1 2 ] { } forall", "{ exit } loop 6", "<< /k 1 >> { pop pop exit } forall 4"}
+	nHist := r.N(40000, 400000)
+	for k := 0; k < nHist; k++ {
+		r.Case("history", func(c *rt.C) {
+			rng := c.Rand()
+			var progs [][]ref.Tok
+			for i, n := 0, 1+rng.IntN(3); i < n; i++ {
+				if rng.IntN(3) > 0 {
+					progs = append(progs, ref.MustParse(leavers[rng.IntN(len(leavers))]))
+				} else {
+					g := &g3{rng: rng, feat: map[string]bool{}, maxD: 2, multiDict: true}
+					progs = append(progs, g.body(0, 0))
+				}
+			}
+			if rng.IntN(4) > 0 {
+				progs = append(progs, ref.MustParse(strays[rng.IntN(len(strays))]))
+			} else {
+				g := &g3{rng: rng, feat: map[string]bool{}, maxD: 2, multiDict: true}
+				progs = append(progs, g.body(0, 0))
+			}
+			out := env.runPSHistory(c, progs, "history")
+			c.Count("history -> " + out)
+			if out != "unsupported" {
+				var sb strings.Builder
+				for _, p := range progs {
+					sb.WriteString(ref.RenderTokens(p) + " || ")
+				}
+				c.Nontrivial([]byte("hist|"+sb.String()), func() string { return sb.String() + "-> " + out })
+			}
+		})
 	}
 
 	nRand := r.N(400000, 4000000)
